@@ -62,7 +62,13 @@ const me = "me@example.net/r"
 
 var errConds = []string{"conflict", "forbidden", "registration-required", "not-allowed", "service-unavailable"}
 
-const watchdog = 1500 * time.Millisecond
+// watchdog bounds every wait for something the library must do. It is generous
+// because the machine may be heavily loaded; it is only ever exhausted when the
+// library fails to do what it must (a passing run never waits for it). Once a
+// world has exhausted it, that world is already failing and its later waits use
+// shortdog so that a broken library does not cost minutes per case.
+const watchdog = 10 * time.Second
+const shortdog = 300 * time.Millisecond
 const grace = 2 * time.Millisecond
 
 type phase int
@@ -122,6 +128,7 @@ type world struct {
 	trace    []Label
 	anomaly  []string
 	usedAddr [nAddr]bool
+	stuck    bool // a watchdog expired in this world
 }
 
 func newWorld() (*world, error) {
@@ -169,6 +176,22 @@ func newWorld() (*world, error) {
 	return w, nil
 }
 
+func (w *world) wd() time.Duration {
+	if w.stuck {
+		return shortdog
+	}
+	return watchdog
+}
+
+// waitFor waits for cond under the world's watchdog.
+func (w *world) waitFor(cond func() bool) bool {
+	if waitFor(w.wd(), cond) {
+		return true
+	}
+	w.stuck = true
+	return false
+}
+
 func (w *world) close() {
 	w.serve.releaseAll()
 	for _, c := range w.calls {
@@ -178,21 +201,21 @@ func (w *world) close() {
 	w.pipe.Close()
 	select {
 	case <-w.sdone:
-	case <-time.After(watchdog):
+	case <-time.After(w.wd()):
 	}
 	for _, c := range w.calls {
 		if c.ph != phRet {
 			select {
 			case <-c.ret:
-			case <-time.After(watchdog):
+			case <-time.After(w.wd()):
 			}
 		}
 	}
 }
 
-func (w *world) lab(l Label)        { w.trace = append(w.trace, l) }
-func (w *world) anom(s string)      { w.anomaly = append(w.anomaly, s) }
-func (w *world) iterDone() bool     { return w.serve.count("serve.iter") >= w.sent+1 }
+func (w *world) lab(l Label)    { w.trace = append(w.trace, l) }
+func (w *world) anom(s string)  { w.anomaly = append(w.anomaly, s) }
+func (w *world) iterDone() bool { return w.serve.count("serve.iter") >= w.sent+1 }
 func (w *world) serveDead() bool {
 	select {
 	case err := <-w.sdone:
@@ -264,7 +287,7 @@ func (w *world) startJoin(a int) bool {
 	}()
 	w.lab(Label{T: "call", K: c.k, A: a, O: "join"})
 	ch.entry = true
-	if !waitFor(watchdog, func() bool { return c.act.parkedAt() == "muc.join.push.before" }) {
+	if !w.waitFor(func() bool { return c.act.parkedAt() == "muc.join.push.before" }) {
 		w.anom(fmt.Sprintf("call %d did not reach the publish point", c.k))
 	}
 	w.collect()
@@ -273,7 +296,7 @@ func (w *world) startJoin(a int) bool {
 
 // awaitRequest waits until the request presence of call c is on the wire.
 func (w *world) awaitRequest(c *callRec) {
-	ok := waitFor(watchdog, func() bool {
+	ok := w.waitFor(func() bool {
 		els, _, _, _ := hx.ParseTopLevel(w.pipe.Written(), stanza.NSClient)
 		n := 0
 		for _, e := range els {
@@ -303,7 +326,7 @@ func (w *world) push(k int) bool {
 	c.act.release()
 	if c.done {
 		// select between a ready send (if the buffer has room) and a done context
-		waitFor(watchdog, func() bool {
+		w.waitFor(func() bool {
 			return c.act.parkedAt() == "muc.join.wait.before" || len(c.ret) > 0
 		})
 		if len(c.ret) > 0 {
@@ -312,7 +335,7 @@ func (w *world) push(k int) bool {
 		}
 	}
 	if len(ch.jq) == 0 {
-		if !waitFor(watchdog, func() bool { return c.act.parkedAt() == "muc.join.wait.before" }) {
+		if !w.waitFor(func() bool { return c.act.parkedAt() == "muc.join.wait.before" }) {
 			w.anom(fmt.Sprintf("call %d did not publish its join context", k))
 			w.collect()
 			return true
@@ -360,7 +383,7 @@ func (w *world) startLeave(a int) bool {
 	}()
 	w.lab(Label{T: "call", K: c.k, A: a, O: "leave"})
 	ch.dep = false
-	if !waitFor(watchdog, func() bool { return c.act.parkedAt() == "muc.leave.wait.before" }) {
+	if !w.waitFor(func() bool { return c.act.parkedAt() == "muc.leave.wait.before" }) {
 		w.anom(fmt.Sprintf("leave call %d did not reach its wait point", c.k))
 	}
 	w.awaitRequest(c)
@@ -406,7 +429,8 @@ func (w *world) expectReturn(c *callRec) bool {
 	case err := <-c.ret:
 		w.noteReturn(c, err)
 		return true
-	case <-time.After(watchdog):
+	case <-time.After(w.wd()):
+		w.stuck = true
 		return false
 	}
 }
@@ -478,7 +502,7 @@ func (w *world) afterReturn(c *callRec) {
 }
 
 func (w *world) finishIter() {
-	if !waitFor(watchdog, w.iterDone) {
+	if !w.waitFor(w.iterDone) {
 		w.anom("the serve loop did not finish handling a stanza")
 	}
 }
@@ -600,7 +624,7 @@ func (w *world) handlerTakes() {
 			w.finishIter()
 			return
 		}
-		if !waitFor(watchdog, func() bool { return w.serve.parkedAt() == "muc.presence.join.taken" || w.iterDone() }) || w.iterDone() {
+		if !w.waitFor(func() bool { return w.serve.parkedAt() == "muc.presence.join.taken" || w.iterDone() }) || w.iterDone() {
 			w.anom("the presence handler did not take the pending join context")
 			w.srv = "idle"
 			return
@@ -612,7 +636,7 @@ func (w *world) handlerTakes() {
 		if len(ch.jq) > 0 {
 			p := w.calls[ch.jq[0]]
 			if p.ph == phBlocked {
-				if waitFor(watchdog, func() bool { return p.act.parkedAt() == "muc.join.wait.before" }) {
+				if w.waitFor(func() bool { return p.act.parkedAt() == "muc.join.wait.before" }) {
 					w.lab(Label{T: "pushed", K: p.k})
 					p.ph = phParked
 					w.awaitRequest(p)
@@ -698,7 +722,7 @@ func (w *world) deliverErr(k, v int) bool {
 			w.srv = "idle"
 			w.finishIter()
 		}
-	} else if !waitFor(watchdog, func() bool { return w.serve.count("serve.awaitclose.before") > before }) {
+	} else if !w.waitFor(func() bool { return w.serve.count("serve.awaitclose.before") > before }) {
 		w.anom("the error reply was not handed to the waiting request")
 		w.srv = "idle"
 	}
